@@ -80,6 +80,8 @@ def headers_for(sc, alg):
         return {**base, **b}, None
     if sc["place"] == "split":
         return {"alg": alg, "typ": "typ \u00fc", **b}, {"cty": "t/x \u00e9\u4e2d", "x5t": "dGh1bWI"}
+    if sc["place"] == "unprotected_empty":
+        return {}, base
     return None, base
 
 
@@ -251,7 +253,7 @@ def execute(ctx: Ctx, with_ref: bool, prop_filter=None) -> None:
     thorough = ctx.tier == "thorough"
     r = ctx.tlc("JwsRoundTrip", timeout=600)
     if thorough:
-        for d in ("DetachDropsSignature", "KidNotWritten", "RawPayloadEncoded", "UnsafeAttached"):
+        for d in ("DetachDropsSignature", "KidNotWritten", "RawPayloadEncoded", "UnsafeAttached", "EmptyProtectedSigned"):
             ctx.sensitivity("JwsRoundTrip", "JwsRoundTrip_dev_" + d)
     scs = list({json.dumps(c, sort_keys=True): c for c in r.cases}.values())
     if len(scs) < 1000:
